@@ -60,9 +60,13 @@ def _work(task):
 
 def _sample_of(spec):
     def brief(op):
-        o = {k: v for k, v in op.items() if k in ("op", "c", "obj", "cls", "cont", "target", "mode", "m", "sol", "buf", "n", "dev")}
+        o = {k: v for k, v in op.items() if k in ("op", "c", "obj", "cls", "cont", "target", "mode", "m", "sol", "buf", "n", "dev", "expect", "bufsize")}
         if "cls" in o:
             o["cls"] = o["cls"].split(".")[-1]
+        if op["op"] == "new":
+            o["kw"] = [k for k, _ in op.get("kw", {}).get("d", [])]
+        if op.get("plan"):
+            o["plan"] = op["plan"]
         if op["op"] == "call":
             o["npts"] = op["pts"]["shape"]
             o["t"] = float.fromhex(op["t"])
@@ -104,6 +108,7 @@ def signature(v):
 
 def write_replay(prop, spec, violation, fp, tag):
     os.makedirs(REPLAY_DIR, exist_ok=True)
+    tag = "".join(ch if (ch.isalnum() or ch in "-_.") else "_" for ch in tag)
     path = os.path.join(REPLAY_DIR, "%s-%s.json" % (prop, tag))
     doc = {"property": prop, "seed": spec.get("seed"), "tier": spec.get("tier"), "index": spec.get("index"),
            "kind": spec.get("kind"), "violation": violation, "fingerprint": fp,
@@ -140,6 +145,8 @@ def replay_file(path, judge):
 def minimise_and_record(prop, judge, spec, violation, resolved, budget=200):
     """Shrink, verify reproducibility (same verdict and same fingerprint twice), write the replay file."""
     frozen = SHR.explicit(spec, violation, resolved)
+    if violation.get("inv") == "H6":
+        budget = 6      # every candidate of a hang costs a full timeout: confirm it once, shrink only a little
     sh = SHR.Shrinker(judge, violation, budget=budget)
     best, v = sh.run(frozen)
     if best is None:
@@ -180,6 +187,7 @@ class Aggregate(object):
         self.dep_total = 0
         self.dep_names = {}
         self.by_kind = {}
+        self.fam_runs = {}
         self.ref_wall = 0.0
         self.fd_leaks = 0
 
@@ -202,6 +210,8 @@ class Aggregate(object):
             self.fired_where[k] = self.fired_where.get(k, 0) + v
         for q in c["classes"]:
             self.classes[q] = self.classes.get(q, 0) + 1
+        for f in c.get("families", []):
+            self.fam_runs[f] = self.fam_runs.get(f, 0) + 1
         for k, v in c["containers"].items():
             self.containers[k] = self.containers.get(k, 0) + v
         for k in c["run_faults"]:
@@ -209,8 +219,14 @@ class Aggregate(object):
         for k, v in res["stats"].items():
             self.stats[k] = self.stats.get(k, 0) + v
         self.fingerprints[tuple(res["task"])] = res["fingerprint"]
-        if res.get("sample") and len(self.samples) < 6:
-            self.samples.append(res["sample"])
+        if res.get("sample"):
+            if res["sample"]["kind"] == "swarm":
+                self.samples.insert(0, res["sample"])
+            else:
+                self.samples.append(res["sample"])
+            swarm = [s for s in self.samples if s["kind"] == "swarm"][:3]
+            other = [s for s in self.samples if s["kind"] != "swarm"][:1]
+            self.samples = swarm + other
         self.ref_wall += res.get("ref_wall", 0.0)
         for tail in res.get("tails", []):
             self.alloc_hits += tail.get("alloc_hits", 0)
@@ -434,6 +450,9 @@ def write_evidence(prop, tier, seed, agg, wall, n_viol, reported, known_lines, h
         "ordered_family_pairs": {"reached": len(agg.fam_pairs), "of": n_fam * n_fam},
         "same_module_parameter_set_pairs": len(agg.pset_pairs),
         "containers": agg.containers,
+        "runs_per_family": dict(sorted(agg.fam_runs.items())),
+        "seeds": {"batch_seed": seed, "derived_prng_streams": agg.runs,
+                  "note": "one PRNG stream per run, derived as sha256(batch seed, tier, run index, property); runs_per_hour is also seeds per hour"},
         "classes_covered": {"covered": len([c for c in covered if c.startswith("exactpack.")]), "of": len(census), "uncovered": [c for c in census if c not in agg.classes][:40]},
         "global_state": {"tracked_variables": discover.tracked(), "distinct_state_signatures": len(agg.state_sigs),
                          "dirty_variables": {k: len(v) for k, v in sorted(agg.dirty_vars.items())}},
